@@ -71,7 +71,9 @@ func New(path string, opts ...Option) (*SQLiteStore, error) {
 		// (the unique name keeps separately created stores from sharing one database)
 		dsn = fmt.Sprintf("file:ebu-memdb-%d?mode=memory&cache=shared", memDBSeq.Add(1))
 	} else {
-		dsn = fmt.Sprintf("file:%s?_busy_timeout=%d", cfg.path, cfg.busyTimeout.Milliseconds())
+		// The busy timeout has to be part of the DSN: a PRAGMA executed on the pool applies to one
+		// connection only, and the driver's DSN syntax for it is _pragma=busy_timeout(ms)
+		dsn = fmt.Sprintf("file:%s?_pragma=busy_timeout(%d)", cfg.path, cfg.busyTimeout.Milliseconds())
 	}
 
 	db, err := dbOpener("sqlite", dsn)
